@@ -167,7 +167,7 @@ pub fn run_worker(specs: &[Borrowed], w: usize, nw: usize, cap_s: u64) -> Worker
         let alpha = (spec.alphabet)(&spec.programs[*pi]);
         let prog = Arc::new(spec.programs[*pi].clone());
         let na = alpha.len();
-        let d = spec.depth;
+        let d = crate::e1::depth_of(spec, &prog);
         let mut idx = vec![0usize; d];
         idx[0] = *first;
         loop {
